@@ -12,6 +12,7 @@ mod oracles;
 mod props;
 mod rng;
 mod sig;
+mod stmts;
 
 use ctx::{Ctx, Tier};
 use serde_json::{json, Value};
@@ -29,6 +30,7 @@ fn tier_of(s: &str) -> Tier {
 
 struct Runner {
     work: Option<libwork::Work>,
+    c09: Option<props::c09::W>,
 }
 
 impl Runner {
@@ -39,6 +41,11 @@ impl Runner {
             } else {
                 None
             },
+            c09: if prop == "C09" || prop == "C08" {
+                Some(props::c09::W { work: libwork::Work::load() })
+            } else {
+                None
+            },
         }
     }
     fn n_items(&self, ctx: &Ctx, prop: &str) -> usize {
@@ -46,6 +53,8 @@ impl Runner {
             p if LIB_PROPS.contains(&p) => props::libprops::n_items(self.work.as_ref().unwrap(), ctx, prop),
             "C04" => props::c04::n_items(ctx),
             "C05" => props::c05::n_items(ctx),
+            "C09" => props::c09::n_items(self.c09.as_ref().unwrap(), ctx),
+            "C08" => props::c08::n_items(self.c09.as_ref().unwrap(), ctx),
             _ => 0,
         }
     }
@@ -54,6 +63,8 @@ impl Runner {
             p if LIB_PROPS.contains(&p) => props::libprops::run_item(self.work.as_ref().unwrap(), ctx, prop, i),
             "C04" => props::c04::run_item(ctx, i),
             "C05" => props::c05::run_item(ctx, i),
+            "C09" => props::c09::run_item(self.c09.as_ref().unwrap(), ctx, i),
+            "C08" => props::c08::run_item(self.c09.as_ref().unwrap(), ctx, i),
             _ => {}
         }
     }
@@ -146,6 +157,10 @@ fn replay(args: &[String]) -> i32 {
                     props::c04::replay(&mut ctx, &case);
                 } else if prop == "C05" {
                     props::c05::replay(&mut ctx, &case);
+                } else if prop == "C09" {
+                    props::c09::replay(&mut ctx, &case);
+                } else if prop == "C08" {
+                    props::c08::replay(&mut ctx, &case);
                 }
                 println!("{}", serde_json::to_string_pretty(&json!({"findings": ctx.findings, "evaluations": ctx.evals})).unwrap());
                 if ctx.findings.is_empty() { 0 } else { 1 }
@@ -257,10 +272,24 @@ fn main() {
         Some("fmt") => fmt_cmd(&args[1..]),
         Some("gen") => gen_cmd(&args[1..]),
         Some("libfmt") => libfmt_cmd(),
+        Some("pos") => pos_cmd(),
         _ => {
             eprintln!("usage: sv worker|replay|fmt|gen ...");
             3
         }
     };
     std::process::exit(code);
+}
+
+#[allow(dead_code)]
+fn pos_cmd() -> i32 {
+    use std::io::Read;
+    let mut src = String::new();
+    std::io::stdin().read_to_string(&mut src).unwrap();
+    let c = cfg::Cfg::with_syntax("Lua51");
+    let ast = fmt::parse(&src, &c).unwrap();
+    for s in stmts::collect(&ast) {
+        println!("{:?} text={:?} withtrivia={:?}", s, &src[s.start..s.end], &src[s.lead_start..s.trail_end]);
+    }
+    0
 }
